@@ -8,6 +8,9 @@ mod sx;
 mod c01;
 mod c02;
 mod c07;
+mod gen_schema;
+mod sx_schema;
+mod c11;
 
 use out::Out;
 
@@ -50,6 +53,7 @@ fn main() {
                 "c01" => c01::run(&args, &mut out),
                 "c02" => c02::run(&args, &mut out),
                 "c07" => c07::run(&args, &mut out),
+                "c11" => c11::run(&args, &mut out),
                 s => { eprintln!("unknown stream {s}"); std::process::exit(2); }
             }
             out.write(&args.out);
